@@ -55,6 +55,18 @@ Agc::Agc(real_t target_level, real_t max_gain, int average_len, real_t t_rise, r
 }
 
 //------------------------------------------------------------------------------------------
+Agc::Agc(const Agc& rhs)
+  : _d{rhs._d ? std::make_shared<AgcImpl>(*rhs._d) : nullptr} {
+}
+
+Agc& Agc::operator=(const Agc& rhs) {
+    if (this != &rhs) {
+        _d = rhs._d ? std::make_shared<AgcImpl>(*rhs._d) : nullptr;
+    }
+    return *this;
+}
+
+//------------------------------------------------------------------------------------------
 Agc::Result<real_t> Agc::process(const arr_real& x) {
     return _process(*_d, x);
 }
